@@ -97,6 +97,19 @@ fn stage(i: &Input, c: &mut Case) -> Result<(), String> {
     // element sizes at the vint width boundaries (126..129, 16382..16384) must survive re-writing too
     mo.tree.pay = crate::gen::PayOpts { big_left: 1, huge: false, max_small: 24 };
     let m = gen_mixed(&mut t, mo);
+    fix(t, m, c)
+}
+
+/// the same relation over documents nested 28 .. 300 masters deep (recursive template specification, `gen_deep`)
+fn stage_deep(i: &Input, c: &mut Case) -> Result<(), String> {
+    let mut t = Tape::new(i.tape());
+    let valid_only = !t.chance(1, 4);
+    let m = gen_deep(&mut t, valid_only);
+    c.label("nested_28_to_300_deep");
+    fix(t, m, c)
+}
+
+fn fix(mut t: Tape, m: MixedInput, c: &mut Case) -> Result<(), String> {
     // a third of the cases: some masters are also read buffered and handed back to the writer as Full items
     let mut buffered: Vec<u64> = Vec::new();
     if t.chance(1, 3) {
@@ -144,10 +157,11 @@ fn stage(i: &Input, c: &mut Case) -> Result<(), String> {
     }
 }
 
-pub const STAGES: &[Stage] = &[Stage { name: "fixpoint", f: stage }];
+pub const STAGES: &[Stage] = &[Stage { name: "fixpoint", f: stage }, Stage { name: "fixpoint_deep_nesting", f: stage_deep }];
 
 pub fn run(rc: &mut RunCtx) {
     rc.run_pt(STAGES[0], rc.pick(800_000, 4_000_000), (96, 500));
+    rc.run_pt(STAGES[1], rc.pick(6_000, 60_000), (64, 200));
     rc.require_label("fixpoint", "mutated_accepted", 30_000);
     rc.require_label("fixpoint", "full_items_written_back", 100_000);
     rc.require_label("fixpoint", "input_noncanonical", 100_000);
